@@ -512,11 +512,12 @@ def run_case(case):
         # ---- counters
         n_written = len(d_ids)
         y = sum(yields.values())
-        acc.count('oracle:pairs_accepted_by_the_strategy_but_refused_at_write_time', out.getvalue().count('Fatal error'))
+        failed_writes = tspy.attempts - len(tspy.calls)      # writes of accepted pairs that raised (observed at the sink, not read from the console)
+        acc.count('oracle:pairs_accepted_by_the_strategy_but_refused_at_write_time', failed_writes)
         if y != n_written:
             txt = out.getvalue()
             mech = 'yield-counter-mismatch'
-            if 'Fatal error' in txt:
+            if failed_writes:
                 mech = 'yield-counter-counts-failed-reads'
             acc.violate(mech, f'{name}: strategyYields={dict(yields)} but {n_written} records were written to the demultiplexed output ({cfg})', wit)
         if len(tspy.calls) != n_written:
